@@ -2,6 +2,23 @@ import TshVerif.Lemmas.ParserTypedCtx
 namespace Tsh.Parser
 open Tsh Tsh.Tr Tsh.LexTables
 
+theorem varNames_post : ∀ fuel, Post (evalVarNames fuel) (fun ns => ns ≠ []) := by
+  intro fuel
+  induction fuel with
+  | zero => unfold evalVarNames; exact Post.div
+  | succ fuel ih =>
+    unfold evalVarNames
+    pm_bind; intro t
+    pm_if
+    · exact Post.err
+    pm_bind; intro n
+    pm_if
+    · exact Post.pure' (by simp)
+    pm_bind; intro _
+    refine Post.bind' ih ?_
+    intro rest _
+    exact Post.pure' (by simp)
+
 theorem mapM_mkVar {f : Tok → Option Var} {spec : ValueType} (hf : ∀ t v, f t = some v → v.vt = spec) :
     ∀ {names : List Tok} {vars : List Var}, names.mapM f = some vars →
       vars.length = names.length ∧ ∀ v ∈ vars, v.vt = spec := by
@@ -152,22 +169,33 @@ theorem valuesTypes_known {first : Bool} {values : List Expr} (h : valsP first v
   · simp only [exprP, PT.expr, Bool.and_eq_true] at hc
     simp [valuesTypes, multiReturnTypes, hr, hc.2]
 
+/-- definitions, assignments and element assignments: the statements that may stand anywhere -/
+def isSimple : Stmt → Bool
+  | .varDef _ _ | .varDefCall _ _ | .assign _ _ | .assignCall _ _ | .sliceAssign _ _ _ => true
+  | _ => false
+
+def simpleP (st : Stmt) : Prop := stmtP st ∧ isSimple st = true
+
+theorem placed_of_simple {st : Stmt} (h : isSimple st = true) (c : SCtx) : Stmt.placed c st = true := by
+  cases st <;> simp_all [isSimple, Stmt.placed]
+
 theorem varDefinition_post (E : ∀ fuel, ExprIH fuel) (fuel : Nat) (ctx : Ctx) (hc : CtxOK ctx) :
-    Post (evalVarDefinition fuel ctx) stmtP := by
+    Post (evalVarDefinition fuel ctx) simpleP := by
   unfold evalVarDefinition
   pm_bind; intro short
   pm_jp; intro jp hjp
-  have key : ∀ r, Post (jp r) stmtP := by
+  have key : ∀ r, Post (jp r) simpleP := by
     intro r; subst hjp; pm_beta
-    pm_bind; intro names
+    refine Post.bind' (varNames_post fuel) ?_
+    intro names hnames
     pm_bind; intro s
     pm_zeta
     split
-    · exact Post.pan
+    · exact Post.unreachable (hnames rfl)
     rename_i first rest
     pm_zeta
     pm_jp; intro jp2 hjp2
-    have key2 : ∀ r, Post (jp2 r) stmtP := by
+    have key2 : ∀ r, Post (jp2 r) simpleP := by
       intro r; subst hjp2; pm_beta
       refine Post.bind' (P := fun spec => spec = vtUnknown ∨ PT.basic spec = true) ?_ ?_
       · pm_if
@@ -230,7 +258,7 @@ theorem varDefinition_post (E : ∀ fuel, ExprIH fuel) (fuel : Nat) (ctx : Ctx) 
         | some ts =>
           obtain ⟨call, rfl⟩ := multi_single hm
           simp only []
-          refine Post.pure' ?_
+          refine Post.pure' ⟨?_, rfl⟩
           have hmt := multi_eq [call] call ts hm rfl
           have hcall : PT.expr call = true := by
             rcases hvals.2 with h1 | ⟨_, c, hc1, hc2, _⟩
@@ -240,7 +268,7 @@ theorem varDefinition_post (E : ∀ fuel, ExprIH fuel) (fuel : Nat) (ctx : Ctx) 
           simp only [stmtP, PT.stmt, hcall, hne, hv'.2.1, hmt, htypes ▸ hv'.1, Bool.not_false, Bool.and_self]
         | none =>
           simp only []
-          refine Post.pure' ?_
+          refine Post.pure' ⟨?_, rfl⟩
           have h1 : PT.vals1 values = true := by
             rcases hvals.2 with h1 | ⟨_, c, rfl, _, n, rets, args, rfl, hr⟩
             · exact h1
@@ -250,7 +278,7 @@ theorem varDefinition_post (E : ∀ fuel, ExprIH fuel) (fuel : Nat) (ctx : Ctx) 
       · refine Post.bind' (P := fun values => PT.vals1 values = true ∧ PT.varsMatch vars (values.map Expr.valueType) = true ∧
             PT.varsKnown vars = true) (Post.ofOpt (fun values h => mapM_default hspec h hvars.2)) ?_
         intro values hv
-        refine Post.pure' ?_
+        refine Post.pure' ⟨?_, rfl⟩
         have hne : vars.isEmpty = false := by
           cases vars with
           | nil => simp at hvars
@@ -296,10 +324,38 @@ theorem single_type {first : Bool} {value : Expr} {rest : List Expr} {t : ValueT
     · simp at hm
     · simp at hm
 
+theorem compound_shape {values : List Expr} (hv : valsP true values) (hlen : ¬ (valuesTypes values).length > 1) :
+    ∃ t value rest, valuesTypes values = [t] ∧ values = value :: rest := by
+  obtain ⟨value, rest, rfl⟩ : ∃ value rest, values = value :: rest := by
+    cases values with
+    | nil => exact absurd rfl hv.1
+    | cons a b => exact ⟨a, b, rfl⟩
+  unfold valuesTypes at hlen ⊢
+  cases hm : multiReturnTypes (value :: rest) with
+  | some ts =>
+    exfalso
+    simp only [hm] at hlen
+    unfold multiReturnTypes at hm
+    split at hm
+    · split at hm
+      · simp only [Option.some.injEq] at hm; rename_i h; rw [hm] at h; exact hlen h
+      · simp at hm
+    · simp only [Option.some.injEq] at hm; subst hm; simp at hlen
+    · simp at hm
+  | none =>
+    simp only [hm, List.map_cons, List.length_cons, List.length_map] at hlen ⊢
+    have : rest = [] := by
+      cases rest with
+      | nil => rfl
+      | cons _ _ => simp at hlen
+    subst this
+    exact ⟨_, _, _, rfl, rfl⟩
+
 theorem compound_post (E : ∀ fuel, ExprIH fuel) (fuel : Nat) (ctx : Ctx) (hc : CtxOK ctx) :
-    Post (evalCompoundAssignment fuel ctx) stmtP := by
+    Post (evalCompoundAssignment fuel ctx) simpleP := by
   unfold evalCompoundAssignment
-  pm_bind; intro names
+  refine Post.bind' (varNames_post fuel) ?_
+  intro names hnames
   split
   · rename_i nameTok
     pm_bind; intro a
@@ -318,7 +374,7 @@ theorem compound_post (E : ∀ fuel, ExprIH fuel) (fuel : Nat) (ctx : Ctx) (hc :
       pm_zeta
       pm_if
       · exact Post.err
-      refine Post.pure' ?_
+      refine Post.pure' ⟨?_, rfl⟩
       obtain ⟨hr, rfl, he⟩ := single_type hvals hv
       have hk := hc.var hf
       have hb := allowedBinary_ok (vt := Expr.valueType value) (op := (a.val.take 1).toString) (by simp_all)
@@ -328,8 +384,13 @@ theorem compound_post (E : ∀ fuel, ExprIH fuel) (fuel : Nat) (ctx : Ctx) (hc :
         ← heq]
       exact ⟨⟨⟨⟨hk, equals_refl _⟩, by simpa using hb⟩, equals_refl _⟩, hk⟩
     · exact Post.err
-    · exact Post.pan
-  · exact Post.pan
+    · rename_i _ _ _ hno2 hlen hno1
+      refine Post.unreachable ?_
+      obtain ⟨t, value, rest, ht, hvs⟩ := compound_shape hvals hlen
+      cases hfv : ctx.findVar nameTok.val s.pfx ctx.global with
+      | none => exact hno2 hfv
+      | some v => exact hno1 v t value rest hfv ht hvs
+  · exact Post.unreachable (hnames rfl)
   · exact Post.err
 
 theorem mapM_assign {f : Tok × ValueType → Option Var} {ctx : Ctx} {pfx : String} {g : Bool} (hc : CtxOK ctx)
@@ -378,9 +439,10 @@ theorem mapM_assign {f : Tok × ValueType → Option Var} {ctx : Ctx} {pfx : Str
           · simp at h1
 
 theorem varAssignment_post (E : ∀ fuel, ExprIH fuel) (fuel : Nat) (ctx : Ctx) (hc : CtxOK ctx) :
-    Post (evalVarAssignment fuel ctx) stmtP := by
+    Post (evalVarAssignment fuel ctx) simpleP := by
   unfold evalVarAssignment
-  pm_bind; intro names
+  refine Post.bind' (varNames_post fuel) ?_
+  intro names _
   pm_bind; intro a
   pm_if
   · exact Post.err
@@ -421,7 +483,7 @@ theorem varAssignment_post (E : ∀ fuel, ExprIH fuel) (fuel : Nat) (ctx : Ctx) 
   | some ts =>
     obtain ⟨call, rfl⟩ := multi_single hm
     simp only []
-    refine Post.pure' ?_
+    refine Post.pure' ⟨?_, rfl⟩
     have hmt := multi_eq [call] call ts hm rfl
     have hcall : PT.expr call = true := by
       rcases hvals.2 with h1 | ⟨_, c, hc1, hc2, _⟩
@@ -431,7 +493,7 @@ theorem varAssignment_post (E : ∀ fuel, ExprIH fuel) (fuel : Nat) (ctx : Ctx) 
     simp only [stmtP, PT.stmt, hcall, hne, hv.2.1, hmt, htypes ▸ hv.1, Bool.not_false, Bool.and_self]
   | none =>
     simp only []
-    refine Post.pure' ?_
+    refine Post.pure' ⟨?_, rfl⟩
     have h1 : PT.vals1 values = true := by
       rcases hvals.2 with h1 | ⟨_, c, rfl, _, n, rets, args, rfl, hr⟩
       · exact h1
@@ -440,7 +502,7 @@ theorem varAssignment_post (E : ∀ fuel, ExprIH fuel) (fuel : Nat) (ctx : Ctx) 
     simp only [stmtP, PT.stmt, h1, hne, hv.2.1, htypes ▸ hv.1, Bool.not_false, Bool.and_self]
 
 theorem sliceAssignment_post (E : ∀ fuel, ExprIH fuel) (fuel : Nat) (ctx : Ctx) (hc : CtxOK ctx) :
-    Post (evalSliceAssignment fuel ctx) stmtP := by
+    Post (evalSliceAssignment fuel ctx) simpleP := by
   unfold evalSliceAssignment
   pm_bind; intro nameTok
   pm_if
@@ -468,11 +530,11 @@ theorem sliceAssignment_post (E : ∀ fuel, ExprIH fuel) (fuel : Nat) (ctx : Ctx
   intro value hval
   pm_if
   · exact Post.err
-  refine Post.pure' ?_
+  refine Post.pure' ⟨?_, rfl⟩
   have hk := hc.var hf
   simp_all [stmtP, PT.stmt, exprP]
 
-theorem incDec_post (ctx : Ctx) (hc : CtxOK ctx) : Post (evalIncDec ctx) stmtP := by
+theorem incDec_post (ctx : Ctx) (hc : CtxOK ctx) : Post (evalIncDec ctx) simpleP := by
   unfold evalIncDec
   pm_bind; intro t
   pm_if
@@ -496,9 +558,9 @@ theorem incDec_post (ctx : Ctx) (hc : CtxOK ctx) : Post (evalIncDec ctx) stmtP :
         ValueType.equals, binaryAllowed, PT.known]
   pm_bind; intro o
   pm_if
-  · exact Post.pure' (fin true)
+  · exact Post.pure' ⟨fin true, rfl⟩
   pm_if
-  · exact Post.pure' (fin false)
+  · exact Post.pure' ⟨fin false, rfl⟩
   · exact Post.err
 
 theorem params_post (ctx : Ctx) : ∀ (fuel : Nat) (acc : List Var), acc.all (fun p => PT.basic p.vt) = true →
